@@ -53,12 +53,32 @@ inline Item enc(float x) { return Item(x); }
 inline float dec(const Item& s) { return (s.v >= 0 && s.v < 1e8f) ? s.v : -1e9f; }
 inline const char* item_tag() { return "-selfmove"; }
 #define C08_ITEM_NONARITH 1
+#elif defined(C08_CMP_DESC)
+// float items ordered by a STATEFUL comparator instance (descending); a default-constructed comparator orders ascending,
+// so any place that uses C() instead of the sketch's instance becomes visible.  enc(x) = 1e7 - x makes the model's
+// ascending order the sketch's order.
+typedef float Item;
+inline Item enc(float x) { return 1e7f - x; }
+inline float dec(const Item& x) { const float v = 1e7f - x; return (v >= 0 && v < 9e6f) ? v : -1e9f; }
+inline const char* item_tag() { return "-desccmp"; }
+#define C08_ITEM_NONARITH 1
 #else
 typedef float Item;
 inline Item enc(float x) { return x; }
 inline float dec(const Item& x) { return x; }
 inline const char* item_tag() { return ""; }
 #endif
+#if defined(C08_CMP_DESC)
+struct Cmp { bool desc; Cmp(): desc(false) {} explicit Cmp(bool d): desc(d) {} bool operator()(const Item& a, const Item& b) const { return desc ? b < a : a < b; } };
+inline Cmp cmp_instance() { return Cmp(true); }
+#else
+typedef std::less<Item> Cmp;
+inline Cmp cmp_instance() { return Cmp(); }
+#endif
+// per-execution sequence number of sketch constructions (reset by execute/feed/doubling_case) and per-case salt: the
+// comparator variant derives from them whether a sketch starts fresh or as a deserialized EMPTY image (bytes / stream)
+inline unsigned& make_seq() { static unsigned v = 0; return v; }
+inline uint64_t& make_salt() { static uint64_t v = 0; return v; }
 
 // ------------------------------------------------------------------------------------------------
 // scripted coin
@@ -244,6 +264,7 @@ struct ExecInfo {
 template<typename Fam>
 std::unique_ptr<typename Fam::SK> execute(const Scenario& sc, ExecInfo& info) {
   typedef typename Fam::SK SK;
+  make_seq() = 0;
   std::vector<std::unique_ptr<SK>> pool(sc.cfg.size());
   for (size_t i = 0; i < sc.cfg.size(); ++i) pool[i].reset(new SK(Fam::make(sc.cfg[i])));
   auto& coin = ds::random_utils::random_bit;
@@ -604,6 +625,7 @@ inline size_t value_at_rank(const Truth& t, double p) {
 template<typename Fam>
 std::unique_ptr<typename Fam::SK> feed(const Cell& c, const std::vector<float>& stream, bool round_chunks = false) {
   typedef typename Fam::SK SK;
+  make_seq() = 0;
   if (c.merge == 0) {
     std::unique_ptr<SK> s(new SK(Fam::make(c.cfg)));
     for (float v : stream) s->update(enc(v));
